@@ -154,8 +154,70 @@ def kern_wrong(n: size, x: f32[n], s: f32):
         x[i] = x[i] + s
 
 
+# ---- dataflow matrix: a field written early and read later under a guard whose truth the analysis may or may
+#      may not know (size / argument / incoming config / config written in a loop, under an if, by a callee)
+@config
+class Flow:
+    mode: index
+    lim: index
+
+
+@proc
+def set_mode(j: index):
+    Flow.mode = j
+
+
+@proc
+def use_lim(x: f32[6]):
+    for j in seq(0, 6):
+        if j < Flow.lim:
+            x[j] = 1.0
+
+
+def _flow_src():
+    setups = {
+        "loopw": (["Flow.mode = 0", "for i in seq(0, n):", "    Flow.mode = 1"], "Flow.mode > 0"),
+        "ifw": (["Flow.mode = 0", "if t > 0:", "    Flow.mode = 1"], "Flow.mode > 0"),
+        "calleeloop": (["Flow.mode = 0", "for i in seq(0, n):", "    set_mode(1)"], "Flow.mode > 0"),
+        "defw": (["Flow.mode = 1"], "Flow.mode > 0"),
+        "size": ([], "n > 3"),
+        "arg": ([], "t > 0"),
+        "incoming": ([], "Flow.mode > 0"),
+        "boolcfg": ([], "Cfg.on"),
+    }
+    L = ["from __future__ import annotations", "from exo import proc",
+         "from harness.corpus.configs import Flow, Cfg, set_mode, use_lim", ""]
+    names = []
+    for nm, (setup, guard) in setups.items():
+        for rd in ("direct", "callee"):
+            fn = f"cg_{nm}_{rd}"
+            names.append(fn)
+            L += ["@proc", f"def {fn}(n: size, t: index, x: f32[6]):", "    Flow.lim = 2"]
+            L += ["    " + l for l in setup]
+            L += [f"    if {guard}:"]
+            if rd == "direct":
+                L += ["        for j in seq(0, 6):", "            if j < Flow.lim:", "                x[j] = 1.0"]
+            else:
+                L += ["        use_lim(x)"]
+            L += [""]
+    return "\n".join(L), names
+
+
 PROCS = [direct_rw, read_after_write, dead_write, via_callees, cfg_in_loop, cfg_guarded, bind_me,
          two_configs, index_cfg, user_of_kern, apply_both]
-CONFIGS = [Cfg, Other]
+CONFIGS = [Cfg, Other, Flow]
+
+
+def _load_flow():
+    import sys
+    from .genmod import load_generated
+    if "harness.corpus.configs" not in sys.modules:  # the generated module imports this one by name
+        return []
+    src, names = _flow_src()
+    mod = load_generated("exoverif_cfgflow", src)
+    return [getattr(mod, n) for n in names]
+
+
+PROCS += _load_flow()
 EQV_PROCS = {"kern_div": kern_div, "kern_cfg": kern_cfg, "kern_wcfg": kern_wcfg,
              "kern_foreign!": kern_foreign, "kern_wrong!": kern_wrong}
